@@ -51,6 +51,14 @@ func genCase(t *rapid.T) Case {
 			c.Cfg.TLS = "cert"
 		}
 	}
+	if rapid.IntRange(0, 2).Draw(t, "password-logins") == 0 {
+		c.Auth = true
+		for i := 0; i < n; i++ {
+			if rapid.IntRange(0, 3).Draw(t, "wrong-password") == 0 {
+				c.WrongPw = append(c.WrongPw, i)
+			}
+		}
+	}
 	c.Staller = rapid.SampledFrom([]string{"", "", "oversized-partial", "message-partial"}).Draw(t, "staller")
 	if rapid.Bool().Draw(t, "owned-schedule") {
 		for len(c.Schedule) < total {
